@@ -8,6 +8,12 @@ BUDGET = {"quick": 700, "thorough": 12000}
 def explore(res, scale=1, seed=None):
     seed = res.seed if seed is None else seed
     colfam.run_family(res, "c01", BUDGET[res.tier] * scale, seed, builds=("default", "purego"))
+    # documented type equivalences at block level (aliased spellings; direct oracle)
+    colfam.run_family(res, "c01alias", 150 * scale, seed, builds=("default",), sample=False)
+    # block level, typed targets and Results.Auto (automatic inference wherever the type is inferable), revisions on both
+    # sides of FeatureBlockInfo / FeatureCustomSerialization: the equal-schema sub-family of the C18 harness
+    colfam.run_family(res, "c18", BUDGET[res.tier] * scale * 3, seed, builds=("default",), extra=("kind=roundtrip",),
+                      glue="Res", gluemod="GlueRes")
     res.extra["rule"] = ("catalogue of real column kinds (harness/c14.go + c01.go) x row counts 0..257 (65534..65537 dictionary "
                          "boundary once per run) filled by reflection; each case: real Prepare+EncodeState+EncodeColumn into a "
                          "non-empty buffer, real decode into a fresh column with trailing bytes; model runs the same case from the "
